@@ -70,6 +70,11 @@ func PartialOrderSort(xs [][]byte) {
 	sort.Slice(xs, func(i, j int) bool { return len(xs[i]) < len(xs[j]) })
 }
 
+// a three-way comparator that orders by length only: partial order
+func PartialOrderSortFunc(xs [][]byte) {
+	slices.SortStableFunc(xs, func(a, b []byte) int { return len(a) - len(b) })
+}
+
 func Select(a, b chan int) int {
 	select {
 	case x := <-a:
